@@ -5,13 +5,17 @@
   parser and `__format_custom`, `__parse_header` (= the model's `headerIndex`), and the whole WRITE side: `write_csv` of a well-formed
   WBS description is the model's `writeCsv` of the records.  The READ side is proved down to the record layer (`read_csv` = `raws_to_wbs`
   on the parsed rows, success direction; the first two loops of `raws_to_wbs` - create the tasks, hang the hierarchy - as explicit folds on
-  the store: Lemmas/CsvSrcS*.lean); the predecessor loop, the reading of those folds as the model's `rebuildForest`, the error direction and so the full reader are
+  the store: Lemmas/CsvSrcS*.lean); and Lemmas/CsvSrcT*.lean: the `roots` loop, the predecessor loop, the whole run of `raws_to_wbs` and of `read_csv` - `C13_source_read_csv` below -
+  with the resulting store in closed form over the row table: `final_roots`, `final_kids`, `final_parent`, `final_preds`, `final_tasks`);
+  the last step from those closed forms to the literal `rebuildForest` of the model (it needs `int()` injective on the id texts and a fuel
+  argument on the model side), the `successors` lists, the error direction and so the full reader are
   tied by kernel-evaluated runs of the translated program on concrete files (Lemmas/CsvSrcCheckC.lean - imported here, so a translated
   source that no longer reproduces them breaks this module): tests at the level of the kernel, not theorems about every input.
 -/
 import PjVerif.Lemmas.CsvSrcD
 import PjVerif.Lemmas.CsvSrcB
 import PjVerif.Lemmas.CsvSrcS
+import PjVerif.Lemmas.CsvSrcT
 import PjVerif.Lemmas.CsvSrcCheckA
 import PjVerif.Lemmas.CsvSrcCheckB
 import PjVerif.Lemmas.CsvSrcCheckC
@@ -71,5 +75,23 @@ theorem C13_source_header_index (cells : List Str) (name : Str) :
 theorem C13_source_write_csv (L : IOLib) (F : Nat) (W : CsvSrc.WbsD) (hWF : CsvSrc.WF W) :
     CsvSrc.interpWrite L (F + 3) W = .ok (writeCsv (CsvSrc.recsOf L W)) :=
   CsvSrc.write_csv_eq L F W hWF
+
+/-- the READ side, success direction: for a text that parses into a header and rows whose standard cells are present and parseable
+    (`RowsRaw`), with well-typed raw rows (`RawOK2`: scalars where scalars belong, estimates / spent not negative), pairwise different
+    ids, predecessor ids that name rows and acyclic parent ids, running the translated `read_csv` (with `raws_to_wbs`: create the tasks,
+    hang the hierarchy, add the roots, link the predecessors through `wbs[id]`) returns the new WBS object and the store `finalSt`, whose
+    roots, children lists, parents, predecessor lists and depth-first task order are given in closed form over the row table by
+    `CsvSrc.final_roots`, `final_kids`, `final_parent`, `final_preds`, `final_tasks` -/
+theorem C13_source_read_csv (L : IOLib) (F : Nat) (text : List Char) (hdr : List Str) (rows : List (List Str))
+    (es : List PyLite.Env) (hp : parse text = some (hdr :: rows)) (hes : CsvSrc.RowsRaw L hdr rows es)
+    (hok : ∀ e ∈ es, CsvSrc.RawOK2 e) (hno : ∀ e ∈ es, ∀ x, e.get? "parent" ≠ some (.atom (.ref x)))
+    (hids : (es.map (fun e => CsvSrc.slot e "id")).Pairwise (fun a b => a.pyEq b = false))
+    (hpreds : ∀ e ∈ es, ∀ k ∈ CsvSrc.predsOf e,
+      (CsvSrc.dictRef (CsvSrc.idDict (CsvSrc.readSt hdr rows es) (List.range es.length)) k).isSome)
+    (hac : CsvSrc.Acyclic (CsvSrc.readSt hdr rows es) (List.range es.length)) :
+    CsvSrc.interpRead L (F + 3) text =
+      .ok (.atom (.ref (CsvSrc.wbsRef (CsvSrc.readSt hdr rows es) (List.range es.length))),
+        CsvSrc.finalSt (CsvSrc.readSt hdr rows es) (List.range es.length)) :=
+  CsvSrc.read_csv_run2 L F text hdr rows es hp hes hok hno hids hpreds hac
 
 end Pj
